@@ -17,6 +17,7 @@ import (
 	"sort"
 	"strconv"
 	"strings"
+	"unicode"
 
 	"gopkg.in/yaml.v3"
 )
@@ -302,7 +303,18 @@ type c13Mutant struct {
 	Problem string
 }
 
-var c13PlainKeyRe = regexp.MustCompile(`^[A-Za-z_][A-Za-z0-9_.-]*$`)
+// c13PlainKey: can the key be written as a plain YAML scalar (letters of any script, digits, _ . -)?
+func c13PlainKey(k string) bool {
+	for i, c := range k {
+		switch {
+		case unicode.IsLetter(c) || c == '_':
+		case i > 0 && (c >= '0' && c <= '9' || c == '.' || c == '-'):
+		default:
+			return false
+		}
+	}
+	return k != ""
+}
 
 // value kinds of an inserted key
 const (
@@ -317,7 +329,7 @@ var c13ValNames = []string{"scalar", "null", "mapping", "sequence"}
 
 func c13InsertedLines(key string, valKind int) (lines []string, val *yaml.Node) {
 	kt := key
-	if !c13PlainKeyRe.MatchString(key) {
+	if !c13PlainKey(key) {
 		kt = strconv.Quote(key)
 	}
 	switch valKind {
@@ -844,6 +856,17 @@ func c13Apply(c *Case, b *c13Base, mn *c13MapNode, op c13Op, strictSelfCheck boo
 			namedElsewhere = true
 		}
 	}
+	if op.Kind == "case-foreign" {
+		// the keys of fixed sections are case-sensitive: another letter case is another (unknown) key, not a repetition
+		for _, d := range fresh {
+			if d.Line == mu.KeyPos.Line && d.Col == mu.KeyPos.Col && strings.Contains(d.Msg, quoted) && c13DupRe.MatchString(d.Msg) {
+				disagree("C13:case-variant-of-fixed-key-reported-as-duplicate:"+sec.Name,
+					fmt.Sprintf("%q next to %q in %s (%s) is reported as a repetition although the keys of this section are case-sensitive: %s", op.Key, m.Content[2*op.Orig].Value, sec.Name, strings.Join(mn.Path, "/"), d.String()),
+					detail(map[string]interface{}{"new_diags": diagStrings(fresh)}))
+				break
+			}
+		}
+	}
 	if !reported {
 		sig := "C13:" + kindClass + "-not-reported:" + sec.Name
 		what := fmt.Sprintf("%s %q inserted into %s (%s) as key #%d is not reported at %d:%d", kindClass, op.Key, sec.Name, strings.Join(mn.Path, "/"), op.Pos, want.Line, want.Col)
@@ -888,7 +911,7 @@ func c13Apply(c *Case, b *c13Base, mn *c13MapNode, op c13Op, strictSelfCheck boo
 
 // c13TemplateBase renders template t with the dirty set chosen by pick.
 func c13TemplateBase(t *c13Template, id string, pick func(i int) bool) (*c13Base, c13Rendered, error) {
-	rd := c13Render(t.Text, pick)
+	rd := c13Render(c13SubstNames(t.Text, nil), pick)
 	b, err := c13NewBase("template-"+t.Name+"/"+id, rd.Src)
 	return b, rd, err
 }
@@ -980,12 +1003,15 @@ func c13CorpusFiles() []string {
 func runC13(r *Run) {
 	r.Rule = "bases: four hand-written templates (together every accepted key of every section of the table) rendered clean, all-dirty (every scalar sibling carries a known diagnostic) and with seeded random dirty subsets (thorough: more subsets and each alternation dirty alone), plus every workflow under testdata/{ok,examples,err} of the repository. " +
 		"For every block-style mapping node matching a table row: foreign key (synthetic name, a key valid in another section, a name with a space; scalar/null/mapping/sequence value) at every position; every key repeated behind the original (same spelling; other letter cases: a repetition in case-insensitive name mappings, a foreign key in fixed sections); every mandatory key deleted. " +
+		"Family names: a template with every user-named mapping (dispatch/call inputs, call secrets and outputs, env at workflow/job/step/container/service level, jobs, job outputs, matrix rows, row values, include/exclude items, services, step and job with, job secrets) rendered with generated names of class ascii / mixed / nonascii (Latin-1, Greek, Cyrillic letters with one-to-one case pairs, pair table written in the monitor); each name repeated as upper, lower, capitalised, only non-ASCII letters flipped, only ASCII letters flipped, one letter flipped, all flipped, random mixture. " +
 		"Each mutant is re-parsed with yaml.v3 and compared with the intended tree before it is judged. Non-trivial = distinct (base, mapping path, mutation, key, position, value kind)."
 	r.Assume("yaml.v3 line/column of a key is the position at which actionlint has to report it (C07 checks positions independently)")
 	r.Assume("a diagnostic is identified by (line, column, kind, message with embedded line:N,col:M references blanked); base diagnostics below the mutated line are expected shifted by the number of inserted lines")
 	r.Assume("letter-case variants of the keys of fixed sections are keys outside the set (docs/checks.md: key names are case-sensitive); keys of name mappings (jobs, inputs, secrets, outputs, env, with, matrix, services, permissions) are compared case-insensitively")
 	r.Assume("for a removed mandatory key only the presence of a new diagnostic naming the key as missing/required is demanded; its position and the fate of other diagnostics are not constrained by the statement")
 	r.Assume("not in the compared domain: flow-style mappings and mappings with several keys on one line (not expressible as a line edit, counted), everything below a repeated key (its value is not part of the workflow), a `schedule` value that is not a sequence, removal of a key whose absence the base already reports")
+	r.Assume("generated names never contain letters with special case folding (ß, ÿ, µ, İ/ı, ſ, Kelvin/Ångström signs, final sigma, accented Greek, titlecase digraphs): the statement does not say how those compare")
+	r.Assume("a letter-case variant of a key of a fixed (case-sensitive) section must be reported as an unknown key and must not be reported as a repetition")
 	r.Assume("additional new diagnostics besides the demanded one are counted, not judged (the statement does not forbid them)")
 
 	pool := c13ForeignPool()
@@ -993,6 +1019,7 @@ func runC13(r *Run) {
 
 	var fams []*Family
 	fams = append(fams, &Family{Name: "templates", N: len(c13Templates), Do: func(c *Case) { c13CheckTemplate(c, &c13Templates[c.Idx]) }})
+	fams = append(fams, &Family{Name: "names", N: r.Q(36, 600), Do: func(c *Case) { c13NamesCase(c, level) }})
 	for ti := range c13Templates {
 		t := &c13Templates[ti]
 		nm := c13CountMarkers(t.Text)
@@ -1081,6 +1108,7 @@ func runC13(r *Run) {
 	if r.ReplayOf != nil {
 		return
 	}
+	c13NamesFloors(r)
 
 	// coverage floors
 	if n := r.SetLen("selfcheck_failures"); n > 0 {
